@@ -105,11 +105,13 @@ Inductive patch_class :=
 | PcKnownWellTyped    (* sets a documented field to a value of its documented type *)
 | PcKnownIllTyped     (* sets a documented field to a value of an incompatible JSON kind *)
 | PcDeleteKnown       (* null for a documented field: the member disappears, defaults apply *)
+| PcDeleteAbsent      (* null for a name the document does not have (e.g. a documented name in
+                         another letter case): RFC 7396 names are exact, nothing changes *)
 | PcNonObject         (* the patch is a scalar or an array: the result is not a configuration *)
 | PcNotJson.          (* the patch is not a JSON text *)
 
 Definition spec_accepts (c : patch_class) : bool :=
   match c with
-  | PcKnownWellTyped | PcDeleteKnown => true
+  | PcKnownWellTyped | PcDeleteKnown | PcDeleteAbsent => true
   | PcUnknownField | PcKnownIllTyped | PcNonObject | PcNotJson => false
   end.
